@@ -157,6 +157,55 @@ impl Spec {
         }
     }
 
+    /// A sibling configuration: the same builder type and the same structure (member count of a
+    /// compound included) with a different body size.  Used as a bystander: a second builder alive
+    /// on the same thread whose calls are interleaved with those of the builder under observation.
+    pub fn sibling(&self) -> Spec {
+        let mut s = self.clone();
+        fn grow_fci(f: &mut Fci) {
+            match f {
+                Fci::Nack { seqs } => seqs.push(seqs.iter().copied().max().unwrap_or(7).wrapping_add(40)),
+                Fci::Fir { entries } => entries.push((entries.iter().map(|e| e.0).max().unwrap_or(5).wrapping_add(3), 9)),
+                Fci::Sli { entries } => entries.push((1, 2, 3)),
+                Fci::Rpsi { bits, .. } => bits.extend_from_slice(&[0x5a; 4]),
+                Fci::Pli => {}
+            }
+        }
+        match &mut s {
+            Spec::Sr { blocks, .. } | Spec::Rr { blocks, .. } => {
+                if blocks.len() < 31 {
+                    blocks.push(Rb { ssrc: 0x5151_5151, ..Rb::default() });
+                } else {
+                    blocks.pop();
+                }
+            }
+            Spec::Sdes { chunks, .. } => chunks.push(Chunk { ssrc: 0x5151_5151, items: vec![Item { ty: 1, prefix: vec![], value: "bystander".into() }] }),
+            Spec::Bye { sources, .. } => {
+                if sources.len() < 31 {
+                    sources.push(0x5151_5151);
+                } else {
+                    sources.pop();
+                }
+            }
+            Spec::App { data, .. } | Spec::Unknown { data, .. } => data.extend_from_slice(&[0x51; 8]),
+            Spec::Fb { fci, sender, .. } => {
+                grow_fci(fci);
+                *sender ^= 0x5151_5151;
+            }
+            Spec::Third { payload, .. } => payload.extend_from_slice(&[0x51; 8]),
+            Spec::Compound { members } => {
+                for m in members.iter_mut() {
+                    *m = m.sibling();
+                }
+            }
+            Spec::Pb(i) => *i = Box::new(i.sibling()),
+            Spec::ChunkOnly(c) => c.items.push(Item { ty: 2, prefix: vec![], value: "bystander".into() }),
+            Spec::ItemOnly(i) => i.value.push_str("bystander"),
+            Spec::FciOnly(f) => grow_fci(f),
+        }
+        s
+    }
+
     /// Number of nodes (used to bound generated sizes and to order shrink candidates).
     pub fn weight(&self) -> usize {
         match self {
